@@ -247,6 +247,21 @@ def run(ctx):
                         not sym.contains(fl, is_rev)
                     desc_ranks = sym.contains(rk, is_rev) and \
                         sym.contains(rk, lambda y: y[0] == "array" and len(y[1]) == 8 and y[1][0][2] == "First")
+                    if not desc_ranks:
+                        # the same walk with an index kept by hand: Rank::ALL[k + a], k counting down by one from 7 - a
+                        # and the loop running exactly while k + a >= 0
+                        from .common import loop_counter, affine_in
+                        from ..ranges import Ranger
+                        for ix_ in sym.subterms(rk, lambda y: y[0] == "index" and y[1][0] == "array" and len(y[1][1]) == 8 and
+                                                [x[2] for x in y[1][1]] == [v_["name"] for v_ in f.adts[T + "rank::Rank"]["variants"]]):
+                            hvs = sym.subterms(ix_[2], lambda y: y[0] == "hv")
+                            if len(hvs) != 1:
+                                continue
+                            a_ = affine_in(ix_[2], hvs[0])
+                            cnt = loop_counter(paths, b, hvs[0])
+                            bd = Ranger(f, {hvs[0]: "usize"}).bounds(hvs[0], p.conds)
+                            if a_ is not None and cnt is not None and cnt[0] + a_ == 7 and cnt[1] == -1 and bd is not None and bd[0] + a_ == 0:
+                                desc_ranks = True
                     ctx.check(asc_files and desc_ranks, "writer:walk-order", "the writer does not walk ranks 8->1 (reversed Rank::ALL) and files a->h (File::ALL)", where,
                               sample={"walk": "ranks reversed, files ascending"} if piece_writes == 1 else None)
                 # an empty count, if any, is flushed before the piece on paths where empty > 0
@@ -324,26 +339,11 @@ def run(ctx):
                     while idx is not None and idx[0] == "cast":
                         idx = idx[2]
                     if idx is not None and idx[0] == "hv":
-                        hdr, cname = idx[3], idx[2]
-                        snap = p.pre_loop.get((0, hdr), {})
-                        starts0 = snap.get((cname, ())) is not None and snap.get((cname, ()))[0] == "int" and snap.get((cname, ()))[1] == 0
-                        over_rows = any(v_ is not None and v_[0] == "call" and v_[1] == "str::rsplit" and v_[2][1] == ("int", 47, "char")
+                        from .common import loop_counter
+                        snap = p.pre_loop.get((0, idx[3]), {})
+                        over_rows = any(v_ is not None and sym.contains(v_, lambda y: y[0] == "call" and y[1] == "str::rsplit" and y[2][1] == ("int", 47, "char"))
                                         for (nm_, pth_), v_ in snap.items())
-                        steps = True
-                        nback = 0
-                        for q in pps:
-                            if q.end != "loopback":
-                                continue
-                            val = None
-                            for root, v_ in q.store.items():
-                                if root[0] == "L" and root[1] == 0 and pb.local_name(root[2]) == cname:
-                                    val = v_
-                            if q.end_bb == hdr:
-                                nback += 1
-                                steps = steps and val in (("bin", "Add", idx, ("int", 1, idx_ty(val))), ("bin", "Add", ("int", 1, idx_ty(val)), idx))
-                            elif val is not None and sym.contains(val, lambda y: y == idx):
-                                steps = steps and val == idx
-                        okr = starts0 and over_rows and steps and nback >= 1
+                        okr = over_rows and loop_counter(pps, pb, idx) == (0, 1)
                 okf = sq[0] == "sq" and sym.contains(sq[1], lambda y: y[0] == "call" and y[1].endswith("File::try_index"))
                 ctx.check(okr and okf, "reader:rank-from-last-row", "rank indices are not assigned from the last '/'-separated row (rsplit + enumerate) / files by a counter through File::try_index", loc(pb))
     ctx.floor("placement calls in the reader", nplace, 2)
